@@ -121,6 +121,15 @@ def gen_cases(r: Run):
         for x in pool:
             for y in pool[:5] if not thorough else pool:
                 cases.append(dict(op="eq", a=x, b=y, oa=origin, ob=origin, kind="grid"))
+        # the 1e-3 tolerance is absolute: it must not widen on patterns scaled to an observed signal (intensities of
+        # millions) or at very large m/z — all values dyadic, so the f64 differences are exact
+        big = [(m, i * 2 ** 22) for m, i in l]
+        far = [(m * 4096, i) for m, i in l]
+        for x, y in ((big, [(m, i + Fraction(1, 256)) for m, i in big]), (big, [(m, i + Fraction(1, 2048)) for m, i in big]),
+                     ([(m, i + Fraction(1, 256)) for m, i in big[:1]] + big[1:], big), (big, big),
+                     (far, [(m + Fraction(3, 1024), i) for m, i in far]), (far, [(m + Fraction(1, 4096), i) for m, i in far]),
+                     (big[:1], [(big[0][0], big[0][1] - Fraction(1, 128))])):
+            cases.append(dict(op="eq", a=x, b=y, oa=origin, ob=origin, kind="grid"))
     # generator outputs: real Poisson patterns whose f64 total is a few ulp off 1
     plines = [f"poisson\t{fr(Fraction(m))}\t{n}\t{z}" for m, n, z in
               [(1200, 8, 2), (750, 5, 1), (5000, 20, 3), (100000, 60, 1), (1800, 12, -2), (36000, 64, 4)]]
